@@ -13,7 +13,7 @@ RULE = ("Finite part enumerated exhaustively: I,H,X,Y,Z,S,Sadj,T,Tadj,SX; CZ, CN
         "CNOT_Heralded(0|1), CCZ, CCNOT(0|1|2); SWAP over all 360 ordered choices of two disjoint mode pairs "
         "within 6 modes (all 1680 within 8 modes in the thorough tier); invalid target_qubit / malformed SWAP "
         "arguments. Continuous part generated: Rx, Ry, Rz, P with angles from {0, +-pi/2, +-pi, 2pi, tiny, +-50, "
-        "generic floats in [-8pi, 8pi]}. Oracle: matrix of heralded amplitudes on the dual-rail basis (own "
+        "generic floats in [-8pi, 8pi], many turns up to 1e13, all multiples of pi/4 up to 4pi}; SWAP also between rails anywhere within 70 modes. Oracle: matrix of heralded amplitudes on the dual-rail basis (own "
         "permanent on the real U_full) equals k x the named gate built from plain Kronecker algebra (qubit 0 the "
         "left-most factor), residual <= 1e-9, |k|^2 in {1, 1/9, 1/16, 1/72} as stated; heralded gates: every "
         "accepted output outside the qubit subspace vanishes; Simulator over all basis inputs agrees. Every case "
@@ -162,7 +162,10 @@ def fixed_gate_cases():
 
 
 ANGLES = [0.0, math.pi / 2, -math.pi / 2, math.pi, -math.pi, 2 * math.pi, 1e-9, -1e-9, 50.0, -50.0, 3 * math.pi,
-          -2.5 * math.pi, 0.7, -0.7]
+          -2.5 * math.pi, 0.7, -0.7,
+          # "every rotation angle": many turns. sin/cos of a double are computed to the last bit for any magnitude
+          # (exact argument reduction), so the reference stays exact; -math.pi / 4 etc. are the named-gate angles
+          1e9, -3e10, 1e12 + 0.5, 12345678.9, math.pi / 4, -math.pi / 4, 4 * math.pi, -4 * math.pi, 1e3 * math.pi]
 
 
 def fixed_angle_cases():
@@ -210,6 +213,18 @@ def run_swap(case):
     return {"nontrivial": True, "labels": labs}
 
 
+@st.composite
+def wide_swap_case(draw):
+    """SWAP between qubits whose rails lie anywhere within 70 modes (a register far down a large chip)."""
+    top = draw(st.sampled_from([8, 31, 32, 33, 40, 64, 69]))
+    ms = draw(st.lists(st.integers(0, top), min_size=4, max_size=4, unique=True))
+    if draw(st.booleans()):
+        ms[draw(st.integers(0, 3))] = top
+        if len(set(ms)) < 4:
+            ms = [top, top - 1, top - 2, top - 3]
+    return {"q1": [ms[0], ms[1]], "q2": [ms[2], ms[3]]}
+
+
 def run_invalid(case):
     from lightworks import qubit
     k = case["kind"]
@@ -243,12 +258,14 @@ def subs(tier):
         "gate": st.sampled_from(["Rx", "Ry", "Rz", "P"]),
         "kw": st.fixed_dictionaries({"theta": st.one_of(
             st.floats(-8 * math.pi, 8 * math.pi, allow_nan=False), st.sampled_from(ANGLES),
-            st.floats(-1e-6, 1e-6), st.integers(-7, 7))}),
+            st.floats(-1e-6, 1e-6), st.integers(-7, 7), st.floats(-1e13, 1e13, allow_nan=False),
+            st.sampled_from([j * math.pi / 4 for j in range(-16, 17)]))}),
     })
     return [
         Sub("fixed-gates", run_gate, cases=lambda: itertools.chain(fixed_gate_cases(), fixed_angle_cases()),
             exhaustive=True),
         Sub("rotation-angles", run_gate, strategy=ang, examples=60 if q else 20000),
         Sub("swap-all-mode-pairs", run_swap, cases=lambda: swap_cases(6 if q else 8), exhaustive=True),
+        Sub("swap-wide", run_swap, strategy=wide_swap_case(), examples=15 if q else 2000),
         Sub("invalid-options", run_invalid, cases=invalid_cases, exhaustive=True),
     ]
